@@ -7,6 +7,7 @@ import (
 	"io"
 	"net/http"
 	"sort"
+	"strings"
 	"time"
 
 	connect "github.com/bufbuild/connect-go"
@@ -376,6 +377,14 @@ func (e *ErrPlan) build(ctx context.Context) error {
 	var ce *connect.Error
 	if e.NilErr {
 		ce = connect.NewError(connect.Code(e.Code), nil)
+	} else if e.WrapCtx != 0 {
+		// e.Msg ends in the context error's text; the cause really wraps it
+		cause := context.Canceled
+		if e.WrapCtx == 2 {
+			cause = context.DeadlineExceeded
+		}
+		base := strings.TrimSuffix(e.Msg, cause.Error())
+		ce = connect.NewError(connect.Code(e.Code), fmt.Errorf("%s%w", base, cause))
 	} else {
 		ce = connect.NewError(connect.Code(e.Code), errors.New(e.Msg))
 	}
